@@ -148,6 +148,17 @@ theorem C20_dispense_error (inv : Inventory) (name : String) (q : Qty) (st : Sto
 example : dispense [("water", { used := some ⟨3, 5⟩, remaining := none })] "water" ⟨6, 1⟩
     = ([("water", { used := some ⟨3, 5⟩, remaining := none })], .conversionError) := by decide +kernel
 
+/-- **A request without a quantity is well-formed enough to be answered**: it is rejected with
+InvalidArgument and nothing changes (no panic), whatever the consumable and the stock. -/
+theorem C20_dispense_missing_quantity (inv : Inventory) (name : String) :
+    dispenseReq inv name none = (inv, .invalidArgument) := by
+  unfold dispenseReq; split <;> rfl
+
+/-- with a quantity the server call is `DispenseInstantly` -/
+theorem C20_dispense_req (inv : Inventory) (name : String) (q : Qty) :
+    dispenseReq inv name (some q) = dispense inv name q := by
+  unfold dispenseReq dispense; split <;> rfl
+
 /-- Dispense touches only the named record. -/
 theorem C20_dispense_frame (inv : Inventory) (name m : String) (q : Qty) (h : m ≠ name) :
     lookup m (dispense inv name q).1 = lookup m inv := by
@@ -168,14 +179,25 @@ def shape (st : Stock) : Option Int × Option Int := (st.used.map (·.unit), st.
 /-- **Every Dispense sequence** (any consumables, quantities, units, failing or not): no stock record
 is created or dropped, and in every record exactly the quantities that were present stay present,
 each in its own unit — only present quantities are ever touched. -/
-theorem C20_dispense_seq_shape (ops : List (String × Qty)) : ∀ (inv : Inventory) (m : String),
+theorem C20_dispense_seq_shape (ops : List (String × Option Qty)) : ∀ (inv : Inventory) (m : String),
     (lookup m (run inv ops)).map shape = (lookup m inv).map shape := by
   induction ops with
   | nil => intro inv m; rfl
   | cons o rest ih =>
     intro inv m
-    show (lookup m (run (dispense inv o.1 o.2).1 rest)).map shape = _
+    show (lookup m (run (dispenseReq inv o.1 o.2).1 rest)).map shape = _
     rw [ih]
+    obtain ⟨oname, oq⟩ := o
+    cases oq with
+    | none => unfold dispenseReq; split <;> rfl
+    | some q =>
+    have hreq : dispenseReq inv oname (some q) = dispense inv oname q := by
+      unfold dispenseReq dispense; split <;> rfl
+    rw [hreq]
+    generalize ho : ((oname, q) : String × Qty) = o
+    have ho1 : oname = o.1 := by rw [← ho]
+    have ho2 : q = o.2 := by rw [← ho]
+    rw [ho1, ho2]
     by_cases hm : m = o.1
     · subst hm
       unfold dispense
